@@ -29,7 +29,8 @@ def meta(tier, seed):
                   "predict_expectations on the query set identical (equal Beta parameters => equal draws); the number of "
                   "binarizer invocations during training equals the number of observations",
         "bounds": {"rows_max": 3 if tier == "quick" else 4, "row_alphabet": ROWS, "binarizers": BINS,
-                   "neighbourhood_policies": NPS_, "variants": ["plain", "add_arm(3, new binarizer) after the first call"],
+                   "neighbourhood_policies": NPS_, "variants": ["plain", "add_arm(3, new binarizer) after the first call",
+                                "a zero-row partial_fit after the first call (up to 2 rows)"],
                    "n_jobs": "1; additionally 2 (joblib model, default schedule) with up to 3 rows for %s" % (
                        ["none", "rad", "tree"] if tier == "quick" else NPS_)},
         "assumptions": [],
@@ -56,7 +57,7 @@ def build_ops(seq, comp, b, variant):
     fn = ops.BINARIZERS[b]
     sub, twin = [], []
     cur = fn
-    nontrivial = variant == "add"
+    nontrivial = variant in ("add", "empty")
     rows = list(seq)
     if variant == "add" and len(comp) >= 2:
         rows[-1] = (3, rows[-1][1], rows[-1][2])
@@ -76,6 +77,11 @@ def build_ops(seq, comp, b, variant):
             sub.append(["add_arm", 3, NEW_BIN[b]])
             twin.append(["add_arm", 3])
             cur = ops.BINARIZERS[NEW_BIN[b]]
+        if i == 0 and variant == "empty":
+            # a zero-row batch (numpy arrays; the library takes it as a no-op where it takes it at all): no reward
+            # is observed, so the binarizer has nothing to convert - and nothing to convert again
+            for lst in (sub, twin):
+                lst.append(["partial_fit", [], [], [], {"d": "int64", "r": "float64", "x0": 2}])
     return sub, twin, nontrivial
 
 
@@ -84,7 +90,7 @@ def run_ops(cfg, oplist):
     m = ops.build(cfg)
     for op in oplist:
         if cf and op[0] in ("fit", "partial_fit"):
-            op = [op[0], op[1], op[2], None]
+            op = [op[0], op[1], op[2], None] + list(op[4:])
         ops.apply(m, op)
     return m
 
@@ -136,7 +142,9 @@ def run_shard(shard):
             if seq[0] != ROWS[shard["first"]]:
                 continue
             for comp in A.compositions(n):
-                for variant in ("plain", "add"):
+                for variant in ("plain", "add", "empty"):
+                    if variant == "empty" and (n > 2 or nn in ("lsh",)):
+                        continue        # LSHNearest rejects a zero-row batch (division by zero), with or without binarizer
                     res = judge(nn, b, seed, list(seq), comp, variant, nj)
                     if res is None:
                         acc.skip("not a valid training history for this policy (too few rows for k / clusters)")
